@@ -250,7 +250,8 @@ def create_node(
         return decider.random_bool()
     elif is_generic_tuple(starting_symbol):
         types = get_generic_parameters(starting_symbol)
-        vals = tuple(create_node(global_context, t, context, {}) for t in types)  # TODO Dependent Types (Tuples)
+        # a dependent refinement on a member speaks about the siblings of the field the tuple sits in
+        vals = tuple(create_node(global_context, t, context, dependent_values) for t in types)
         return wrap_result(vals, global_context, context)
     elif is_generic_list(starting_symbol):
         inner_type = get_generic_parameter(starting_symbol)
@@ -260,7 +261,7 @@ def create_node(
         nctx = LocalSynthesisContext(list_depth, context.nodes + 1, context.expansions + 1, dependent_vals)
         nli = []
         for _ in range(length):
-            nv = create_node(global_context, inner_type, nctx)
+            nv = create_node(global_context, inner_type, nctx, dependent_values)
             nctx.nodes += number_of_nodes(nv)
             nli.append(nv)
         vl: GengyList = GengyList(starting_symbol, nli)
